@@ -69,10 +69,10 @@ def _check_values_are_feasible(study: Study, values: Sequence[float]) -> str | N
         # return `value` is assumed to be ignored on failure so we can set it to any value.
         try:
             float(v)
-        except (ValueError, TypeError):
+        except (ValueError, TypeError, OverflowError):
             return f"The value {repr(v)} could not be cast to float"
 
-        if math.isnan(v):
+        if math.isnan(float(v)):
             return f"The value {v} is not acceptable"
 
     if len(study.directions) != len(values):
